@@ -712,7 +712,8 @@ void File::uncompressedFile2ReadWriteQueue() {
     ObjectHeaderBase * obj = createObject(ohb.objectType);
     if (obj == nullptr) {
         /* in case of unknown objectType */
-        m_uncompressedFile.seekg(ohb.objectSize, std::ios_base::cur);
+        /* always skip at least the header just read, so that a bogus objectSize cannot stall the reader */
+        m_uncompressedFile.seekg(ohb.objectSize > ohb.calculateHeaderSize() ? ohb.objectSize : ohb.calculateHeaderSize(), std::ios_base::cur);
         return;
     }
 
